@@ -13,7 +13,17 @@ theorem lt_of_get?_some {α} {l : List α} {i : Nat} {a : α} (h : l[i]? = some 
   · exact h1
   · rw [List.getElem?_eq_none_iff.mpr h1] at h; cases h
 
-@[simp] theorem setSig_get (i j : SigId) (g : Sig) :
+@[simp] theorem list_set_get {α} (l : List α) (i j : Nat) (g : α) :
+    (l.set i g)[j]? = if i = j then (l[j]?).map (fun _ => g) else l[j]? := by
+  simp only [List.getElem?_set]
+  by_cases hij : i = j
+  · subst hij
+    cases h : l[i]? with
+    | none => simp [Nat.not_lt.mpr (List.getElem?_eq_none_iff.mp h)]
+    | some x => simp [lt_of_get?_some h]
+  · simp [hij]
+
+theorem setSig_get (i j : SigId) (g : Sig) :
     (s.setSig i g).sigs[j]? = if i = j then (s.sigs[j]?).map (fun _ => g) else s.sigs[j]? := by
   simp only [setSig_sigs, List.getElem?_set]
   by_cases hij : i = j
@@ -131,6 +141,18 @@ theorem foldl_takeFrom_get (l : List SigId) (j : SigId) :
       cases s.sigs[i]? <;> simp
     · have h3 : ¬ j = i := fun h => h2 h.symm
       by_cases h1 : j ∈ l <;> simp [h1, h2, h3]
+
+theorem append_single_get {α} (l : List α) (g : α) (j : Nat) :
+    (l ++ [g])[j]? = if j = l.length then some g else l[j]? := by
+  simp only [List.getElem?_append]
+  by_cases h1 : j < l.length
+  · have : j ≠ l.length := by omega
+    simp [h1, this]
+  · by_cases h2 : j = l.length
+    · subst h2; simp
+    · have h4 : 1 ≤ j - l.length := by omega
+      have h3 : l.length ≤ j := by omega
+      simp [h1, h2, List.getElem?_eq_none_iff.mpr h3, List.getElem?_eq_none_iff.mpr (by simpa using h4 : [g].length ≤ j - l.length)]
 
 @[simp] theorem newSig_get (g : Sig) (j : Nat) :
     (s.newSig g).1.sigs[j]? = if j = s.sigs.length then some g else s.sigs[j]? := by
